@@ -35,6 +35,11 @@ func (w *World) AfterOp() error {
 			return err
 		}
 	}
+	if w.mon.DirtyEvery > 0 && k%w.mon.DirtyEvery == 0 {
+		if err := w.CheckDirty(); err != nil {
+			return err
+		}
+	}
 	if w.mon.SizeEvery > 0 && k%w.mon.SizeEvery == 0 {
 		if err := w.CheckSizes(); err != nil {
 			return err
